@@ -713,9 +713,17 @@ def runTask (s : St) (t : Tid) : St :=
       | .server => srvCloseExc2 s t e
       | .client => cliCloseExc s t e)
     | none =>
-      match s.cfg.side with
-      | .server => srvCloseRead s t
-      | .client => cliCloseRead (exitTmo s t none).1 t)
+      -- `read()` resumes with `return self._read_from_buffer()` — no second emptiness check:
+      -- if another reader took the message meanwhile this raises EofStream / the stored exception
+      match readFromBuffer s, s.cfg.side with
+      | (s, .ok (.close c)), .server =>
+        closeReturn (srvSetCodeCloseTransport (exitTmo s t none).1 c) t (.ok true)
+      | (s, .ok _), .server => srvCloseRead s t
+      | (s, .error e), .server => srvCloseExc2 (exitTmo s t none).1 t e
+      | (s, .ok (.close c)), .client =>
+        closeReturn (cliRespClose { (exitTmo s t none).1 with closeCode := some c }) t (.ok true)
+      | (s, .ok _), .client => cliCloseRead (exitTmo s t none).1 t
+      | (s, .error e), .client => cliCloseExc (exitTmo s t none).1 t e)
 
 /-! ## loop callbacks -/
 
@@ -776,7 +784,9 @@ def connLost (s : St) (withExc : Bool) : St :=
     | .server => feedEof (baseConnLost s withExc)
     | .client =>
       let s := if s.protoClose then s else feedEof s
-      baseConnLost s withExc
+      -- `super().connection_lost(reraised_exc)`: the handler's own queue is never at EOF on an
+      -- upgraded connection, so `reraised_exc` is `ServerDisconnectedError` even for a clean EOF
+      baseConnLost s true
 
 def runCb (s : St) : Cb → St
   | .task t => runTask s t
